@@ -259,12 +259,16 @@ def run(ctx):
             r0 = res[0] if isinstance(res[0], str) else repr(res[0])
             fails.append((t, 'well-formed message of %d characters (%s line ends): the body is not what is returned (returned %d characters starting %r)'
                           % (len(t), 'CRLF' if nl != '\n' else 'LF', len(r0), r0[:60])))
-    # through the paragraph parser
-    for text, body, nl in wf[:ctx.n(500, 5000)]:
+    # through the paragraph parser: the flag means "remove the signature, then parse", whatever stands before the envelope
+    pp = [w[0] for w in wf[:ctx.n(500, 5000)]]
+    pp += [pre + t for t in pp[:200] for pre in ('\n', '\n\n', ' \n', '\r\n')] + nest[:100] + mal[:300]
+    for text in pp:
         a = call(debcon.get_paragraph_data, text, remove_pgp_signature=True)
-        b = call(debcon.get_paragraph_data, by[('remove_signature', text)]) if by[('remove_signature', text)] else {'unknown': by[('remove_signature', text)]}
-        if a != b and by[('remove_signature', text)]:
-            fails.append((text, 'get_paragraph_data(remove_pgp_signature=True) differs from parsing the unsigned text'))
+        u = call(unsign.remove_signature, text)
+        b = call(debcon.get_paragraph_data, u) if isinstance(u, str) else u
+        st['cases'] += 1
+        if a != b:
+            fails.append((text, 'get_paragraph_data(remove_pgp_signature=True) gives %r, parsing the unsigned text gives %r' % (a, b)))
     st['prop_failures'] = len(fails)
     st['wellformed'] = len(wf)
     st['is_signed_true'] = sum(1 for t in texts if by[('is_signed', t)])
